@@ -30,5 +30,7 @@ TocShort == SubSeq(TocMC, 1, 2)
 TocLonger == {TocMC}
 AlphaEvolve == {T(1), D, M(3, 6)}
 AlphaStale == {T(1), M(3, 6)}
+\* raw-memory variables whose stored type has another size than the fetched one (payload counts the fetched one)
+MemSizes == {M(7, 1), M(1, 3), M(8, 6)}
 NoBugs == {}
 ====
